@@ -33,7 +33,7 @@ type BE struct {
 	c     *Ctx
 	ids   map[vkey]int
 	keys  []vkey
-	memo  map[ssa.Value]*Lin // expand memo
+	memo  map[ssa.Value]*Lin  // expand memo
 	inv   map[*ssa.Phi][]Ineq // loop invariants
 	invOK map[*ssa.BasicBlock]bool
 	// statistics
@@ -86,8 +86,8 @@ func (e *BE) name(i int) string {
 func (e *BE) show(q Ineq) string { return q.L.String(e.name) + " >= 0" }
 
 var (
-	bigOne  = big.NewInt(1)
-	maxLen  = new(big.Int).Lsh(bigOne, 62)
+	bigOne = big.NewInt(1)
+	maxLen = new(big.Int).Lsh(bigOne, 62)
 )
 
 func typeRange(t types.Type) (lo, hi *big.Int, ok bool) {
